@@ -67,12 +67,14 @@ class PyWorld:
 		rng = self.rng
 		if level == 'expr':
 			s = self.sampler(34 + 14 * size)
-			return [*s.derive('expr'), '\n']
+			s.or_bias = rng.choice([0.6, 1.0, 1.5])
+			return [*s.derive('expr', budget=rng.choice([6, 12, 20, 30])), '\n']
 		s = self.sampler(44 + 14 * size)
+		s.or_bias = rng.choice([0.6, 1.0, 1.5])
 		n = rng.choice([1, 1, 2, 3])
 		out: list[str] = []
 		for _ in range(n):
-			out.extend(s.derive('statement'))
+			out.extend(s.derive('statement', budget=rng.choice([8, 15, 25, 40])))
 		return out
 
 	def text_of(self, tokens: list[str]) -> tuple[str, bool]:
